@@ -217,7 +217,7 @@ def run(ctx, report):
                 R.nontrivial.add(inst.key())
             if ok and len(R3.samples) < 4 and isinstance(res, list) and res:
                 R3.samples.append('%s %s: %s' % (inst.name, inst.form, show(res[-1])[:140]))
-    # operand pairs the form model does not produce: the two byte parts of one register, in both orders (xchg / xadd / cmpxchg merge their two writes)
+    # operand pairs the form model does not produce: the two byte parts of one register, in both orders, and one register named twice (xchg / xadd / cmpxchg merge their two writes)
     from ..lifter import TId, TSlice, InfoObj
 
     class _Probe(object):
@@ -233,7 +233,8 @@ def run(ctx, report):
             f = L.mnemo_func.get(mn)
             if f is None:
                 continue
-            for tag, ops in (('%sl, %sh' % (rname[1], rname[1]), [lo, hi]), ('%sh, %sl' % (rname[1], rname[1]), [hi, lo])):
+            for tag, ops in (('%sl, %sh' % (rname[1], rname[1]), [lo, hi]), ('%sh, %sl' % (rname[1], rname[1]), [hi, lo]),
+                             ('%s, %s' % (rname, rname), [reg, reg]), ('%sl, %sl' % (rname[1], rname[1]), [lo, TSlice(reg, 0, 8)]), ('%sx, %sx' % (rname[1], rname[1]), [TSlice(reg, 0, 16), TSlice(reg, 0, 16)])):
                 probe = _Probe(mn, 'parts %s' % tag, f)
                 try:
                     results = L.I.run(f, [InfoObj('u32', 'u32')] + ops)
